@@ -73,7 +73,14 @@ func c13Run(r *rt.Rec, rng *rand.Rand, n int) {
 			// HAVING is applied after grouping: test aggregate outputs
 			k := base.Vars[0]
 			op := []string{"count", "countd"}[rng.Intn(2)]
-			base.Vars = []bq.Proj{k, {Binding: base.Vars[1].Binding, Alias: "?agg", Op: op}}
+			alias := "?agg"
+			if rng.Intn(2) == 0 && base.Vars[1].Binding != k.Out() {
+				// the aggregate output named like its input binding: HAVING must see
+				// the aggregate, not the raw values
+				alias = base.Vars[1].Binding
+				r.Count("aggregate_alias_named_like_input", 1)
+			}
+			base.Vars = []bq.Proj{k, {Binding: base.Vars[1].Binding, Alias: alias, Op: op}}
 			base.GroupBy = []string{k.Out()}
 		}
 		t0, err, pan := runQ(ctx, r, data, base.Text())
